@@ -700,6 +700,11 @@ func (p *Parser) parseInsertStmt() ast.Statement {
 	if hasBody {
 		p.nextToken() // skip ")"
 		stmt.Block = p.parseBlockStmt()
+
+		// the block must be closed by "@end"
+		if !p.curTokenIs(token.END) && !p.expectPeek(token.END) {
+			return nil
+		}
 	}
 
 	p.inserts[stmt.Name.Value] = stmt
